@@ -81,6 +81,7 @@ func filterImage(image bufimage.Image, options *imageFilterOptions) (bufimage.Im
 		imageFilePath := imageFile.Path()
 		// Check if the file is used.
 		if _, ok := closure.imports[imageFilePath]; !ok {
+			dirty = true
 			continue // Filtered out.
 		}
 		newImageFile, err := filterImageFile(
